@@ -17,7 +17,7 @@ def recompute_stats(case):
     stats = {}
     for sig, samples in case.data.items():
         sgi, conts = fc.capture(case.mb, sig, samples)
-        cur = {}
+        cur = stats.get(sgi, {})   # several signatures may export one subgraph: the moving average continues across them
         for c in conts:
             for name, v in c.items():
                 if v.dtype != np.float32 or v.size == 0:
